@@ -115,3 +115,11 @@ Theorem C02_oracle_sound : forall c,
   Corr.C02.wf_case c = true -> Corr.C02.corr_b c = true -> Corr.C02.prop_b c = true.
 Proof. exact Proofs.CorrC02.oracle_sound. Qed.
 Print Assumptions C02_oracle_sound.
+
+(** Persisting and restoring the state (a serde round trip of PositionManager / InstrumentState)
+    between any two fills changes nothing: a history with restore steps runs exactly like the
+    fills alone, so every theorem above holds across restores. (That the implementation's round
+    trip IS the identity is checked by the correspondence harness on every restore step.) *)
+Theorem C02_restore_invariant : forall ops, prun_r ops = prun (fills_of_ops ops).
+Proof. exact prun_restore_invariant. Qed.
+Print Assumptions C02_restore_invariant.
